@@ -9,6 +9,17 @@
 open Nngv_model
 open Conv
 
+(* the forms of the source: Gen/Consts.v, or "--flags <u><p>" (0/1 each: the long-URL nni_strdup is
+   tested; nni_msg_pull_up tests nni_msg_insert) given by the check, which reads them from
+   the very tree it tests (Gen/Consts.v is shared with checks running on other trees) *)
+let f_url_checked = ref uRL_STRDUP_CHECKED
+let f_pullup_checked = ref pULL_UP_INSERT_CHECKED
+let () =
+  match Array.to_list Sys.argv with
+  | _ :: "--flags" :: f :: _ when String.length f = 2 ->
+      f_url_checked := (f.[0] = '1'); f_pullup_checked := (f.[1] = '1')
+  | _ -> ()
+
 let sz_msg = ref 0 and sz_ptr = ref 8 and sz_msgq = ref 0 and sz_ent = ref 0 and sz_url = ref 0 and sz_topic = ref 0
 let orc : bool list ref = ref []
 
@@ -218,7 +229,7 @@ let () =
       (* ---------------- url *)
       | "uparse" :: hex :: _ ->
           (match !url1 with Some u -> ignore (url_free_o (nsz sz_url) u []); url1 := None | None -> ());
-          (match runm (url_parse_o (nsz sz_url) uRL_STRDUP_CHECKED (uflags ()) (fun _ -> None) (bytes_of_hex hex @ [N0])) with
+          (match runm (url_parse_o (nsz sz_url) !f_url_checked (uflags ()) (fun _ -> None) (bytes_of_hex hex @ [N0])) with
            | UCrash, t -> out "CRASH" t
            | URes (rv, Some u), t -> url1 := Some u; out (ushow u) t
            | URes (rv, None), t -> out (Printf.sprintf "rv=%d" (int_of_n rv)) t)
@@ -291,7 +302,7 @@ let () =
                    | None, _ -> print_endline "MODEL-OOB")
               | "pullup" ->
                   let shared = List.hd rest = "1" in
-                  (match runm (msg_pull_up_o (nsz sz_msg) true pULL_UP_INSERT_CHECKED m shared) with
+                  (match runm (msg_pull_up_o (nsz sz_msg) true !f_pullup_checked m shared) with
                    | Some (Some m'), t -> slots.(i) <- Some m'; out (mobs 0 "-" (Some m')) t
                    | Some None, t ->
                        (* NULL: the caller (inproc) frees its reference; storage goes only if unshared *)
